@@ -9,6 +9,7 @@ import (
 	"os"
 
 	"a0initprobe/early"
+	"a0initprobe/laws"
 
 	"github.com/alttpo/snes/mapping/exhirom"
 	"github.com/alttpo/snes/mapping/hirom"
@@ -20,18 +21,6 @@ type mapper struct {
 	name string
 	b2p  func(uint32) (uint32, error)
 	p2b  func(uint32) (uint32, error)
-}
-
-func class(p uint32) string {
-	switch {
-	case p < 0xE00000:
-		return "rom"
-	case p < 0xF00000:
-		return "sram"
-	case p >= 0xF50000:
-		return "wram"
-	}
-	return "none"
 }
 
 func main() {
@@ -77,47 +66,11 @@ func main() {
 		}
 		bad++
 	}
-	offs := []uint32{0, 0x1FFF, 0x2000, 0x5FFF, 0x6000, 0x7FFF, 0x8000, 0xFFFF, 0x1234, 0x9ABC, 0xE000, 0xDFFF}
+	var lm []laws.Mapper
 	for _, m := range ms {
-		for bank := uint32(0); bank < 256; bank++ {
-			for _, off := range offs {
-				a := bank<<16 | off
-				n++
-				if pan := func() (p interface{}) {
-					defer func() { p = recover() }()
-					_, _ = m.b2p(a)
-					_, _ = m.p2b(a)
-					return nil
-				}(); pan != nil {
-					fail("%s: a call with $%06x failed: %v", m.name, a, pan)
-					continue
-				}
-				if p, err := m.b2p(a); err == nil {
-					if class(p) == "none" {
-						fail("%s: B2P($%06x)=$%06x outside every class window", m.name, a, p)
-					}
-					b2, err2 := m.p2b(p)
-					if err2 != nil {
-						fail("%s: B2P($%06x)=$%06x but P2B of that fails: %v", m.name, a, p, err2)
-					} else if p2, err3 := m.b2p(b2); err3 != nil || p2 != p {
-						fail("%s: B2P($%06x)=$%06x, P2B=$%06x, B2P again=($%06x,%v)", m.name, a, p, b2, p2, err3)
-					}
-				}
-				if b, err := m.p2b(a); err == nil {
-					q, qerr := m.b2p(b)
-					if qerr != nil {
-						fail("%s: P2B($%06x)=$%06x which B2P does not map", m.name, a, b)
-					} else if class(q) != class(a) && !(class(a) == "wram" && class(q) == "wram") {
-						fail("%s: P2B($%06x)=$%06x designates %s, want %s", m.name, a, b, class(q), class(a))
-					} else if q&0x1FFF != a&0x1FFF {
-						fail("%s: P2B($%06x)=$%06x -> $%06x: offset within the 8 KiB page changed", m.name, a, b, q)
-					}
-				} else if class(a) != "none" {
-					fail("%s: P2B($%06x) rejected although the address lies in the %s window", m.name, a, class(a))
-				}
-			}
-		}
+		lm = append(lm, laws.Mapper{Name: m.name, B2P: m.b2p, P2B: m.p2b})
 	}
+	n = laws.Check(lm, fail)
 	fmt.Printf("probe evaluated=%d violations=%d early=%s\n", n, bad, early.Touched)
 	if bad > 0 {
 		os.Exit(1)
